@@ -19,7 +19,9 @@ import z3  # noqa: E402
 from tv import driver, fronts, gen, sem  # noqa: E402
 
 UNROLL = 6
+KNOWN = prelude.known_classes('C01')
 LO, HI = -(1 << 15), 1 << 15
+LIST_MAX = 3
 
 
 def inputs_for(params: list):
@@ -28,6 +30,13 @@ def inputs_for(params: list):
 	for pn, pt, _ in params:
 		if pt == 'bool':
 			inputs[pn] = ('bool', z3.Bool(pn))
+		elif pt == 'list[int]':
+			# a list of at most LIST_MAX ints (the model's capacity sem.CAP leaves room for one append)
+			n = z3.BitVec(pn + '_n', sem.W)
+			elems = [z3.BitVec(f'{pn}_{k}', sem.W) for k in range(sem.CAP)]
+			inputs[pn] = ('list', (n, elems))
+			cons.append(z3.And(n >= sem.bv(0), n <= sem.bv(LIST_MAX)))
+			cons.extend(z3.And(x >= sem.bv(LO), x < sem.bv(HI)) for x in elems)
 		else:
 			v = z3.BitVec(pn, sem.W)
 			inputs[pn] = ('int', v)
@@ -40,6 +49,9 @@ def model_args(model, params: list) -> list:
 	for pn, pt, _ in params:
 		if pt == 'bool':
 			out.append(bool(z3.is_true(model.eval(z3.Bool(pn), model_completion=True))))
+		elif pt == 'list[int]':
+			n = model.eval(z3.BitVec(pn + '_n', sem.W), model_completion=True).as_signed_long()
+			out.append([model.eval(z3.BitVec(f'{pn}_{k}', sem.W), model_completion=True).as_signed_long() for k in range(n)])
 		else:
 			out.append(model.eval(z3.BitVec(pn, sem.W), model_completion=True).as_signed_long())
 	return out
@@ -49,7 +61,7 @@ def run_python(source: str, name: str, args: list):
 	ns: dict = {}
 	exec(source, ns)
 	try:
-		r = ns[name](*args)
+		r = ns[name](*[list(a) if isinstance(a, list) else a for a in args])
 		return int(r)
 	except Exception:  # noqa: BLE001
 		return 'EXC'
@@ -82,35 +94,49 @@ def compiles(cpp_text: str, name: str) -> str:
 	d = prelude.scratch()
 	src = os.path.join(d, f'c{os.getpid()}.cpp')
 	with open(src, 'w') as f:
-		f.write('#include <exception>\n#include <algorithm>\n#include <cstdlib>\n' + needed_text(cpp_text, [name]) + '\n')
+		f.write('#include <exception>\n#include <algorithm>\n#include <cstdlib>\n#include <vector>\n' + needed_text(cpp_text, [name]) + '\n')
 	c = subprocess.run(['g++', '-std=c++20', '-fsyntax-only', '-w', src], capture_output=True, text=True)
 	return '' if c.returncode == 0 else c.stderr[-400:]
 
 
+def cpp_arg(x) -> str:
+	if isinstance(x, bool):
+		return 'true' if x else 'false'
+	if isinstance(x, list):
+		return 'std::vector<int>{' + ', '.join(str(v) for v in x) + '}'
+	return str(x)
+
+
 def run_cpp(cpp_text: str, calls: list) -> list:
-	"""calls: [(name, args)] -> list of results ('EXC' or int) through g++"""
+	"""calls: [(name, args)] -> list of results ('EXC', 'CRASH' or int) through g++; one process per call, library assertions on
+	(an out-of-bounds operator[] aborts instead of reading foreign memory)"""
 	if not calls:
 		return []
 	d = prelude.scratch()
-	main = ['#include <exception>', '#include <algorithm>', '#include <cstdlib>', '#include <iostream>', needed_text(cpp_text, [n for n, _ in calls]), 'int main() {']
-	for name, args in calls:
-		a = ', '.join(('true' if x else 'false') if isinstance(x, bool) else str(x) for x in args)
-		main.append(f'\ttry {{ std::cout << (long long)({name}({a})) << "\\n"; }} catch (...) {{ std::cout << "EXC\\n"; }}')
+	main = ['#include <exception>', '#include <algorithm>', '#include <cstdlib>', '#include <vector>', '#include <iostream>', needed_text(cpp_text, [n for n, _ in calls]), 'int main(int argc, char** argv) {', '\tint which = std::atoi(argv[1]);']
+	for k, (name, args) in enumerate(calls):
+		a = ', '.join(cpp_arg(x) for x in args)
+		main.append(f'\tif (which == {k}) {{ try {{ std::cout << (long long)({name}({a})) << "\\n"; }} catch (...) {{ std::cout << "EXC\\n"; }} }}')
 	main.append('\treturn 0;\n}')
 	src = os.path.join(d, f'm{os.getpid()}.cpp')
 	exe = os.path.join(d, f'm{os.getpid()}.out')
 	with open(src, 'w') as f:
 		f.write('\n'.join(main))
-	c = subprocess.run(['g++', '-std=c++20', '-O0', '-w', '-o', exe, src], capture_output=True, text=True)
+	c = subprocess.run(['g++', '-std=c++20', '-O0', '-w', '-D_GLIBCXX_ASSERTIONS', '-o', exe, src], capture_output=True, text=True)
 	if c.returncode != 0:
 		return [f'COMPILE-ERROR: {c.stderr[-300:]}'] * len(calls)
-	r = subprocess.run([exe], capture_output=True, text=True, timeout=60)
-	lines = r.stdout.strip().split('\n')
 	out = []
-	for ln in lines:
-		out.append('EXC' if ln == 'EXC' else int(ln))
-	while len(out) < len(calls):
-		out.append('CRASH')
+	for k in range(len(calls)):
+		try:
+			r = subprocess.run([exe, str(k)], capture_output=True, text=True, timeout=60)
+		except subprocess.TimeoutExpired:
+			out.append('TIMEOUT')
+			continue
+		ln = r.stdout.strip()
+		if r.returncode != 0 or ln == '':
+			out.append('CRASH')
+		else:
+			out.append('EXC' if ln == 'EXC' else int(ln))
 	return out
 
 
@@ -143,7 +169,7 @@ def handle(entries: list) -> dict:
 		d = prelude.scratch()
 		whole = os.path.join(d, f'b{os.getpid()}.cpp')
 		with open(whole, 'w') as f:
-			f.write('#include <exception>\n#include <algorithm>\n#include <cstdlib>\n' + cpp_text)
+			f.write('#include <exception>\n#include <algorithm>\n#include <cstdlib>\n#include <vector>\n' + cpp_text)
 		if subprocess.run(['g++', '-std=c++20', '-fsyntax-only', '-w', '-x', 'c++', whole], capture_output=True, text=True).returncode != 0:
 			for name, _, _ in entries:
 				diag = compiles(cpp_text, name)
@@ -168,8 +194,13 @@ def handle(entries: list) -> dict:
 			params = pf[name][0]
 			inputs, cons = inputs_for(params)
 			prem = sem.Premises()
-			rp, vp = sem.Machine(pf, 'py', prem, UNROLL).run(name, inputs)
-			rc, vc = sem.Machine(cf, 'cpp', None, UNROLL).run(name, inputs)
+			mp, mc = sem.Machine(pf, 'py', prem, UNROLL), sem.Machine(cf, 'cpp', None, UNROLL)
+			rp, vp = mp.run(name, inputs)
+			rc, vc = mc.run(name, inputs)
+			class_conds: dict = {}
+			for m in (mp, mc):
+				for cls, conds in m.classes.items():
+					class_conds.setdefault(cls, []).extend(conds)
 			if vp is None or vc is None:
 				raise sem.Unsupported('no return value')
 			s = z3.Solver()
@@ -184,10 +215,31 @@ def handle(entries: list) -> dict:
 			t_solver += time.time() - t0
 			rec['verdict'] = r
 			if r == 'sat':
-				args = model_args(s.model(), params)
-				rec['model'] = dict(zip([p[0] for p in params], args))
+				model = s.model()
 				rec['class'] = classify(src)
-				replays.append((rec, text, name, args, src if cpp_text is None else module_src))
+				hit = [cls for cls, conds in sorted(class_conds.items()) if any(z3.is_false(model.eval(c, model_completion=True)) for c in conds)]
+				listed = [cls for cls in hit if cls in KNOWN]
+				if rec['class'] is None and listed:
+					# the difference lies in the trigger region of a listed finding class: is there a difference outside those regions too?
+					for cls in sorted(class_conds):
+						if cls in KNOWN:
+							s.add(*class_conds[cls])
+					t0 = time.time()
+					r2 = str(s.check())
+					t_solver += time.time() - t0
+					rec['outside_listed_classes'] = r2
+					if r2 == 'unsat':
+						rec['class'] = listed[0]
+					elif r2 == 'sat':
+						model = s.model()
+					else:
+						rec['verdict'] = r2
+				elif rec['class'] is None and hit:
+					rec['class'] = hit[0]
+				if rec['verdict'] == 'sat':
+					args = model_args(model, params)
+					rec['model'] = dict(zip([p[0] for p in params], args))
+					replays.append((rec, text, name, args, src if cpp_text is None else module_src))
 			s.pop()
 			if r == 'unsat' and len(witnesses) < 3:
 				# encoder validation: a solver-chosen input inside the premises; the z3 C++ evaluator must agree with g++
